@@ -212,6 +212,7 @@ def gen_govc(prop):
     return [
         {"dir": "{repo}", "pkgs": ["./internal/parser/lr1/action", "./internal/parser/lr1/items"], "contracts": [ACTION_CONTRACTS, LR1ITEMS_CONTRACTS, "{repo}/internal/ast/zz_contracts_verif.go", "{repo}/internal/parser/first/zz_contracts_verif.go"], "prop": prop},
         {"dir": "{repo}", "pkgs": ["."], "contracts": [MAIN_CONTRACTS], "prop": prop},
+        {"dir": "{repo}", "pkgs": ["./internal/parser/gen/golang"], "contracts": ["{repo}/internal/parser/gen/golang/zz_contracts_gen_verif.go", ACTION_CONTRACTS, LR1ITEMS_CONTRACTS, "{repo}/internal/ast/zz_contracts_verif.go", "{repo}/internal/parser/first/zz_contracts_verif.go"], "prop": prop},
     ]
 
 
@@ -234,7 +235,7 @@ PROPS["C04"] = {
         "config.Config accessors, io.WriteFileString, conflictString: trusted to be free of side effects on the data handleConflicts reads",
         "that the item sets are those of the canonical LR(1) automaton (so that 'two items propose different actions' is 'the grammar is not LR(1)') is the generator's global algorithm, decided by the bounded SYN sweep of the LR validator",
     ],
-    "explanation": "Proved for all item sets: Item.action is the per-item proposal (accept / reduce on the item's look-ahead / shift on the expected symbol); ItemSet.Action reports conflicts exactly when two items propose different actions and panics exactly on a conflict involving accept; handleConflicts exits exactly when there are conflicts and -a is off, with a status that is non-zero modulo 256, and returns otherwise.",
+    "explanation": "Proved for all item sets: Item.action is the per-item proposal (accept / reduce on the item's look-ahead / shift on the expected symbol); ItemSet.Action reports conflicts exactly when two items propose different actions and panics exactly on a conflict involving accept; the table builders getActionRowData and getActionTableData (the plain, non -zip path) list a state exactly when one of its rows has a conflict and a symbol exactly when two items propose different actions for it; handleConflicts exits exactly when there are conflicts and -a is off, with a status that is non-zero modulo 256, and returns otherwise. (GenActionTable/Gen, which pass the map on through the template execution, and the -zip builder are not under contract.)",
 }
 
 
